@@ -91,3 +91,46 @@ Section Backoff.
     - cbn [snd]. pose proof (delay_nonneg (S c) Hdi Hdm). lia.
   Qed.
 End Backoff.
+
+(* ---------- hosts that are backing off are offered after the others ---------- *)
+Section Order.
+  Variable now : Z.
+  Definition split_ok (l : list bhost) : Prop :=
+    exists a b, l = a ++ b /\ Forall (fun h => waiting now h = false) a /\ Forall (fun h => waiting now h = true) b.
+
+  Lemma insert_in_ready h a b : waiting now h = false -> Forall (fun x => waiting now x = true) b ->
+    exists a', insert_bhost now h (a ++ b) = a' ++ b /\ (Forall (fun x => waiting now x = false) a -> Forall (fun x => waiting now x = false) a').
+  Proof.
+    intros Hh Hb. induction a as [|x a IH]; cbn [app insert_bhost].
+    - destruct b as [|y b]; [exists [h]; split; [reflexivity|intros _; repeat constructor; exact Hh]|].
+      inversion Hb as [|? ? Hy Hb']; subst. cbn [insert_bhost]. unfold bhost_le. rewrite Hh, Hy. cbn [orb].
+      unfold waiting in Hh, Hy. apply Z.ltb_ge in Hh. apply Z.ltb_lt in Hy.
+      replace (bh_last h <=? bh_last y) with true by (symmetry; apply Z.leb_le; lia).
+      exists [h]. split; [reflexivity|intros _; repeat constructor; now apply Z.ltb_ge].
+    - destruct (bhost_le now h x).
+      + exists (h :: x :: a). split; [reflexivity|]. intro Ha. constructor; [exact Hh|exact Ha].
+      + destruct IH as (a' & E & Hf). exists (x :: a'). split; [cbn; now rewrite E|].
+        intro Ha. inversion Ha; subst. constructor; [assumption|now apply Hf].
+  Qed.
+
+  Lemma insert_in_waiting h a b : waiting now h = true -> Forall (fun x => waiting now x = false) a ->
+    exists b', insert_bhost now h (a ++ b) = a ++ b' /\ (Forall (fun x => waiting now x = true) b -> Forall (fun x => waiting now x = true) b').
+  Proof.
+    intros Hh Ha. induction a as [|x a IH]; cbn [app insert_bhost].
+    - exists (insert_bhost now h b). split; [reflexivity|]. intro Hb. induction b as [|y b IHb]; cbn [insert_bhost]; [repeat constructor; exact Hh|].
+      inversion Hb; subst. destruct (bhost_le now h y); constructor; auto.
+    - inversion Ha as [|? ? Hx Ha']; subst. unfold bhost_le at 1. rewrite Hh. cbn [orb].
+      unfold waiting in Hh, Hx. apply Z.ltb_lt in Hh. apply Z.ltb_ge in Hx.
+      replace (bh_last h <=? bh_last x) with false by (symmetry; apply Z.leb_gt; lia).
+      destruct (IH Ha') as (b' & E & Hf). exists b'. split; [now rewrite E|exact Hf].
+  Qed.
+
+  Theorem waiting_hosts_last : forall l, split_ok (sort_bhosts now l).
+  Proof.
+    induction l as [|h l IH]; cbn [sort_bhosts fold_right]; [exists [], []; repeat split; constructor|].
+    fold (sort_bhosts now l). destruct IH as (a & b & -> & Ha & Hb).
+    destruct (waiting now h) eqn:Hh.
+    - destruct (insert_in_waiting h a b Hh Ha) as (b' & -> & Hf). exists a, b'. auto.
+    - destruct (insert_in_ready h a b Hh Hb) as (a' & -> & Hf). exists a', b. auto.
+  Qed.
+End Order.
